@@ -1012,6 +1012,13 @@ func init() {
 	reg("verifCallConstArg", func(fr *frame, a []value) value {
 		return staticCallConstArg(fr.i.prog, name(fr, a[0]), name(fr, a[1]), int(asInt64(a[2])))
 	})
+	reg("verifTrackDisallow", func(fr *frame, a []value) value {
+		ex := fr.ex()
+		if ex.track != nil {
+			delete(ex.track.allow, name(fr, a[0]))
+		}
+		return nil
+	})
 	reg("verifPermuteMaps", func(fr *frame, a []value) value { fr.ex().permute = fr.ex().truth(a[0]); return nil })
 }
 
